@@ -263,6 +263,54 @@ def poly_to_term(p, W):
     return ("poly", tuple(sorted(((m, c) for m, c in p.items()), key=repr)))
 
 
+def to_raw(t, zeros=()):
+    """Normal form -> raw term (so that it can be normalised again), replacing the atoms listed in `zeros` by 0."""
+    if t in zeros:
+        return C(0)
+    k = t[0]
+    if k in ("c", "leaf", "acc", "elem", "idx"):
+        return t
+    if k == "tr":
+        return ("tr", t[1], to_raw(t[2], zeros))
+    if k == "shr":
+        w = t[1] or 64
+        return ("shr", w, to_raw(t[2], zeros), to_raw(t[3], zeros))
+    if k == "bit":
+        items = [to_raw(x, zeros) for x in t[2]]
+        out = items[0]
+        for x in items[1:]:
+            out = ("op", t[1], out, x)
+        return out
+    if k == "poly":
+        out = None
+        for m, c in t[1]:
+            term = C(c)
+            for f in m:
+                term = ("op", "mul", term, to_raw(f, zeros))
+            out = term if out is None else ("op", "add", out, term)
+        return out if out is not None else C(0)
+    if k == "fold":
+        return ("fold", to_raw(t[1], zeros), to_raw(t[2], zeros))
+    if k == "word":
+        items = [("op", "shl", l, C(8 * j)) if j else l for j, l in t[1]]
+        out = items[0]
+        for x in items[1:]:
+            out = ("op", "xor", out, x)
+        return out
+    if k == "sx":
+        return ("sx", t[1], to_raw(t[2], zeros))
+    if k == "floordiv":
+        return ("floordiv", to_raw(t[1], zeros), t[2])
+    return t
+
+
+def subst_zero(t, zeros, W):
+    """Normal form of t under the assumption that every term in `zeros` (normal forms) equals 0."""
+    if not zeros:
+        return t
+    return nf(to_raw(t, tuple(zeros)), W)
+
+
 def show(t, depth=0):
     k = t[0]
     if k == "c":
@@ -494,6 +542,28 @@ class HInterp:
                     return ("hasblocks",)
                 if _is_nblocks(x, self.B) and y == ("c", 0) and isinstance(t.ops[0], (ast.Lt, ast.NotEq)) and x is nb:
                     return ("hasblocks",)
+        # data-dependent test on a scalar term:  if x / if x != 0 / if x == 0
+        neg = False
+        x = None
+        if isinstance(t, ast.Compare) and len(t.ops) == 1 and isinstance(t.ops[0], (ast.Eq, ast.NotEq)):
+            a = self.ev(t.left, p)
+            b = self.ev(t.comparators[0], p)
+            try:
+                if nf(b) == ("c", 0):
+                    x = a
+                elif nf(a) == ("c", 0):
+                    x = b
+            except AnalysisError:
+                x = None
+            neg = isinstance(t.ops[0], ast.Eq)
+        elif isinstance(t, ast.UnaryOp) and isinstance(t.op, ast.Not):
+            x = self.ev(t.operand, p)
+            neg = True
+        elif isinstance(t, (ast.Name, ast.Call)):
+            x = self.ev(t, p)
+        if x is not None and not isinstance(x, (BytesV, BlocksV)):
+            # tag: ("nonzero", normal form of x, negated?)  -- the false branch of `if x` knows x == 0
+            return ("nonzero", nf(x), neg)
         raise HUndecided("condition `%s`" % unparse(t, 60))
 
     def loop(self, s, p):
